@@ -109,8 +109,8 @@ PROPS = {
         'explanation': 'CBMC contracts for print_i64/println_i64 and for the generated drivers (n = 0..7), Verus contract for the argument shuffle, bounded native execution of the routine skeleton',
     },
     'C14': {
-        'units': ['x86_code'],
-        'aux': [],
+        'units': ['x86_code', 'a64_code', 'rv64_code', 'x86_routine', 'x86_moves', 'x86_memory', 'a64_memory', 'rv64_memory'],
+        'aux': ['native_labels', 'kani_fresh_label'],
         'level': 'proof',
         'claim': 'Every instruction pushed by any verified emitter satisfies the operand-range predicate of its printed form (immediates, displacements, register numbers), jump-table entries have the stride assumed by the tag arithmetic, spill and field offsets are in range; proved for all inputs. Label uniqueness / symbol collisions are not decided.',
         'note': 'Trusted: the encodable() predicate written from the ISA manuals, the printer (T3), Verus/Z3.',
